@@ -62,6 +62,20 @@ def gen_tree(rng, base, loops=False, dotnames=True, nfiles=(4, 12)):
         with open(full, "w") as f:
             f.write(f"int v{i};\n")
         files.append(p)
+    # hard links: a second directory entry for the same inode is an ordinary regular file for every rule of the
+    # property (two member files that happen to share their bytes); scan() reports them as plain files
+    if files and rng.random() < 0.4:
+        for _ in range(rng.randint(1, 2)):
+            tgt = rng.choice(files)
+            d = rng.choice(dirs)
+            p = d + "/" + rng.choice(["hl_", "h "]) + os.path.basename(tgt)
+            full = os.path.join(base, p)
+            if not os.path.lexists(full):
+                try:
+                    os.link(os.path.join(base, tgt), full)
+                    files.append(p)
+                except OSError:
+                    pass
     # symbolic links
     links = []
     alld = dirs + outdirs
